@@ -72,13 +72,13 @@ fn c09_date_add(klo: i32, khi: i32) {
     }
 }
 
-//@ unit c09_ts_add prop=C09,C02,C03,C17 chunks=tuples:-480,480;2135900000,2136000000;-2136000000,-2135900000;481,130000;-130000,-481;130001,2135899999;-2135899999,-130001 quick=first:3 mem=5 timeout=1500/3600 stubs=crate::common::julian2date=>crate::verif_support::ghost_julian2date,crate::timestamp::Timestamp::extract=>crate::verif_support::stub_ts_extract,crate::timestamp::Timestamp::date=>crate::verif_support::stub_ts_date,crate::timestamp::Timestamp::time=>crate::verif_support::stub_ts_time bound="every real date x every microsecond of the day x every month offset of the sub-range: Timestamp::add/sub_interval_ym keep day and time; OracleDate version on whole seconds"
+//@ unit c09_ts_add prop=C09,C02,C03,C17 chunks=tuples:-480,480;2135900000,2136000000;-2136000000,-2135900000;481,130000;-130000,-481;130001,2135899999;-2135899999,-130001 quick=first:3 mem=5 timeout=1500/3600 stubs=crate::common::julian2date=>crate::verif_support::ghost_julian2date,crate::timestamp::Timestamp::extract=>crate::verif_support::stub_ts_extract,crate::timestamp::Timestamp::date=>crate::verif_support::stub_ts_date,crate::timestamp::Timestamp::time=>crate::verif_support::stub_ts_time bound="every real date x every microsecond of the day x every month offset of the sub-range: Timestamp::add/sub_interval_ym keep day and time (OracleDate: s17_od_delegation)"
 fn c09_ts_add(klo: i32, khi: i32) {
     let k = any_i32_in(klo, khi);
     let t = any_tod();
     let (date, (y, m, d)) = ghost_date(1, 9999);
     let exp = c09_expect(y, m, d, k);
-    let ts = Timestamp::new(date, mk_time(t));
+    let ts = ghost_ts(0, date, t);
     let r = ts.add_interval_ym(mk_ym(k));
     match exp {
         Some(n) => match r {
@@ -98,25 +98,9 @@ fn c09_ts_add(klo: i32, khi: i32) {
         (Err(_), Err(_)) => {}
         _ => assert!(false),
     }
-    // Oracle-style date: same, on the whole second
-    let tsec = t - t % 1_000_000;
-    let od = OracleDate::new(date, mk_time(tsec));
-    let ro = od.add_interval_ym(mk_ym(k));
-    match exp {
-        Some(n) => match ro {
-            Ok(v) => assert!(v.usecs() == n as i64 * USECS_DAY + tsec),
-            Err(_) => assert!(false),
-        },
-        None => assert!(ro.is_err()),
-    }
-    match (ro, od.sub_interval_ym(mk_ym(-k))) {
-        (Ok(a), Ok(b)) => assert!(a.usecs() == b.usecs()),
-        (Err(_), Err(_)) => {}
-        _ => assert!(false),
-    }
 }
 
-//@ unit c09_last_day prop=C09,C02,C03,C17 mem=4 timeout=1200 stubs=crate::common::julian2date=>crate::verif_support::ghost_julian2date,crate::timestamp::Timestamp::extract=>crate::verif_support::stub_ts_extract,crate::timestamp::Timestamp::date=>crate::verif_support::stub_ts_date,crate::timestamp::Timestamp::time=>crate::verif_support::stub_ts_time bound="every real date x every microsecond of the day: last_day_of_month of Date, Timestamp and OracleDate"
+//@ unit c09_last_day prop=C09,C02,C03,C17 mem=4 timeout=1200 stubs=crate::common::julian2date=>crate::verif_support::ghost_julian2date,crate::timestamp::Timestamp::extract=>crate::verif_support::stub_ts_extract,crate::timestamp::Timestamp::date=>crate::verif_support::stub_ts_date,crate::timestamp::Timestamp::time=>crate::verif_support::stub_ts_time bound="every real date x every microsecond of the day: last_day_of_month of Date and Timestamp (OracleDate: s17_od_delegation)"
 fn c09_last_day() {
     let t = any_tod();
     let (date, (y, m, d)) = ghost_date(1, 9999);
@@ -124,11 +108,8 @@ fn c09_last_day() {
     let r = date.last_day_of_month();
     assert!(r.days() == last);
     assert!(r.days() >= date.days() && r.days() - date.days() <= 30);
-    let ts = Timestamp::new(date, mk_time(t));
+    let ts = ghost_ts(0, date, t);
     assert!(ts.last_day_of_month().usecs() == last as i64 * USECS_DAY + t);
-    let tsec = t - t % 1_000_000;
-    let od = OracleDate::new(date, mk_time(tsec));
-    assert!(od.last_day_of_month().usecs() == last as i64 * USECS_DAY + tsec);
     kani::cover!(m == 2 && d == 29);
     kani::cover!(m == 2 && o_dim(y, m) == 28 && d == 1);
     kani::cover!(d == 31);
@@ -281,7 +262,7 @@ fn c10_date(unit: u8) {
                 assert!(v.days() == b);
                 assert!(v.days() <= n && n - v.days() < o_period(u));
                 kani::cover!(v.days() == n);
-                kani::cover!(v.days() < n);
+                kani::cover!(v.days() < n || o_period(u) == 1);
             }
             Err(_) => assert!(false),
         }
@@ -307,13 +288,13 @@ fn c10_date_mustfail() {
 }
 
 
-//@ unit c10_ts prop=C10,C02,C03,C16,C17 chunks=range:0:11 quick=all mem=5 timeout=1500/3600 stubs=crate::common::julian2date=>crate::verif_support::ghost_julian2date,crate::timestamp::Timestamp::extract=>crate::verif_support::stub_ts_extract,crate::timestamp::Timestamp::date=>crate::verif_support::stub_ts_date,crate::timestamp::Timestamp::time=>crate::verif_support::stub_ts_time bound="every real date x every microsecond of the day, truncation unit = parameter, on Timestamp and (whole seconds) OracleDate; result compared with the Date-level boundary at midnight (C17) or the top of the hour/minute"
+//@ unit c10_ts prop=C10,C02,C03,C16,C17 chunks=range:0:11 quick=all mem=5 timeout=1500/3600 stubs=crate::common::julian2date=>crate::verif_support::ghost_julian2date,crate::timestamp::Timestamp::extract=>crate::verif_support::stub_ts_extract,crate::timestamp::Timestamp::date=>crate::verif_support::stub_ts_date,crate::timestamp::Timestamp::time=>crate::verif_support::stub_ts_time bound="every real date x every microsecond of the day, truncation unit = parameter, on Timestamp (OracleDate: s17_od_delegation); result compared with the Date-level boundary at midnight (C17) or the top of the hour/minute"
 fn c10_ts(unit: u8) {
     let u = unit_of(unit);
     let t = any_tod();
     let (x, (y, m, d)) = ghost_date(1, 9999);
     let n = x.days();
-    let ts = Timestamp::new(x, mk_time(t));
+    let ts = ghost_ts(0, x, t);
     let b = o_trunc_day(u, n, y, m, d);
     let tod = match u {
         U::Hour => t - t % 3_600_000_000,
@@ -334,20 +315,6 @@ fn c10_ts(unit: u8) {
         }
     } else {
         assert!(matches!(r, Err(Error::DateOutOfRange)));
-    }
-    let tsec = t - t % 1_000_000;
-    let od = OracleDate::new(x, mk_time(tsec));
-    let ro = call_trunc_od(u, od);
-    if b >= DAY_MIN {
-        match ro {
-            Ok(v) => {
-                assert!(v.usecs() == b as i64 * USECS_DAY + tod);
-                assert!(v.usecs() % 1_000_000 == 0);
-            }
-            Err(_) => assert!(false),
-        }
-    } else {
-        assert!(ro.is_err());
     }
 }
 
@@ -508,7 +475,7 @@ fn c11_date_body(u: U, y00_rounds_up: bool, only_y00: bool) {
                 // either the truncation or the next boundary after it
                 let tb = o_trunc_day(u, n, y, m, d);
                 assert!(v.days() == tb || v.days() > n);
-                kani::cover!(v.days() > n);
+                kani::cover!(v.days() > n || o_period(u) == 1);
                 kani::cover!(v.days() <= n);
             }
             Err(_) => assert!(false),
@@ -541,7 +508,7 @@ fn c11_century_y00_pinned() {
     c11_date_body(U::Century, false, true);
 }
 
-//@ unit c11_ts prop=C11,C02,C03,C16,C17 chunks=range:0:11 quick=all mem=6 timeout=1800/3600 stubs=crate::common::julian2date=>crate::verif_support::ghost_julian2date,crate::timestamp::Timestamp::extract=>crate::verif_support::stub_ts_extract,crate::timestamp::Timestamp::date=>crate::verif_support::stub_ts_date,crate::timestamp::Timestamp::time=>crate::verif_support::stub_ts_time bound="every real date x every microsecond of the day, rounding unit = parameter, on Timestamp and (whole seconds) OracleDate; years divisible by 100 excluded for the century unit (see c11_century_y00_*)"
+//@ unit c11_ts prop=C11,C02,C03,C16,C17 chunks=range:0:11 quick=all mem=6 timeout=1800/3600 stubs=crate::common::julian2date=>crate::verif_support::ghost_julian2date,crate::timestamp::Timestamp::extract=>crate::verif_support::stub_ts_extract,crate::timestamp::Timestamp::date=>crate::verif_support::stub_ts_date,crate::timestamp::Timestamp::time=>crate::verif_support::stub_ts_time bound="every real date x every microsecond of the day, rounding unit = parameter, on Timestamp (OracleDate: s17_od_delegation); years divisible by 100 excluded for the century unit (see c11_century_y00_*)"
 fn c11_ts(unit: u8) {
     let u = unit_of(unit);
     let t = any_tod();
@@ -550,7 +517,7 @@ fn c11_ts(unit: u8) {
         kani::assume(y % 100 != 0);
     }
     let n = x.days();
-    let ts = Timestamp::new(x, mk_time(t));
+    let ts = ghost_ts(0, x, t);
     // expected instant in microseconds (i128: may exceed the range)
     let exp = c11_ts_expect(u, n, y, m, d, t);
     let r = call_round_ts(u, ts);
@@ -567,17 +534,6 @@ fn c11_ts(unit: u8) {
             assert!(matches!(r, Err(Error::DateOutOfRange)));
             kani::cover!(true);
         }
-    }
-    let tsec = t - t % 1_000_000;
-    let od = OracleDate::new(x, mk_time(tsec));
-    let expo = c11_ts_expect(u, n, y, m, d, tsec);
-    let ro = call_round_od(u, od);
-    match expo {
-        Some(e) => match ro {
-            Ok(v) => assert!(v.usecs() == e && e % 1_000_000 == 0),
-            Err(_) => assert!(false),
-        },
-        None => assert!(ro.is_err()),
     }
 }
 
